@@ -100,11 +100,18 @@ class Check:
         divs = v.get("div") or []
         wits = v.get("wit") or []
         for f in self.findings:
-            if f["clause"] != why and not (f["clause"].endswith("*") and why.startswith(f["clause"][:-1])):
+            if f["clause"] != why and not (f["clause"].endswith("*") and why.startswith(f["clause"][:-1])) \
+                    and why not in f.get("clauses", []):
                 continue
             if f.get("divergence") and (not divs or f["divergence"] not in divs):
                 continue
             if f.get("witness") and f["witness"] not in wits:
+                continue
+            if f.get("witness_only"):
+                shapes = [w for w in wits if not w.startswith("solver:")]
+                if not shapes or not set(shapes) <= set(f["witness_only"]):
+                    continue
+            if f.get("solver") and ("solver:" + f["solver"]) not in wits:
                 continue
             return f
         return None
